@@ -16,7 +16,8 @@ ASSUMPTIONS = list(c08.ASSUMPTIONS) + [
     "flatbuffers-backed messages (from_fbs) are outside this check: _from_fbs is None",
 ]
 LEVEL = "other"
-NOT_COVERED = ["the third-party codecs and the batching framing of serializer.py",
+NOT_COVERED = ["the third-party codecs themselves (assumed: unpack(pack(o)) == o)",
+               "the JSON batch format (payload.split(b'\\x18')): bytes.split is outside the modelled subset",
                "Hello and Welcome (role feature objects)", "pre-serialized args / kwargs (str / bytes) of PUBLISH",
                "application payload (args / kwargs / transparent payload)", "the per-message serialization cache (Message._serialized / uncache)"]
 MSG = "autobahn.wamp.message"
@@ -154,10 +155,95 @@ def build(reg):
           + ["implies(m._%s is not None, forall(q, 0, len(m._%s), 0 <= m._%s[q] <= 2**53))" % (k, k, k) for k in ("exclude", "eligible")],
           ["request", "topic", "acknowledge", "exclude_me", "retain", "transaction_hash", "forward_for"] + list(LISTS) + PAY_SAME,
           canon=["args", "kwargs"], more_inline=PAY_INL, extra_inline=["marshal_options"])
+    framing_units(reg, common)
+
+
+def framing_units(reg, common):
+    """batched mode of the three binary object serializers (4-octet big-endian length prefix per message).  The
+    third-party codec is a pair of uninterpreted functions pack: Obj -> bytes, unpack: bytes -> Obj with the assumed
+    law unpack(pack(o)) == o (and unpack may raise on anything that is not a pack() image).
+    A batch is described by ghost functions: n objects obj(k), k < n, laid out at offsets off(k):
+        off(0) == 0, off(k+1) == off(k) + 4 + len(pack(obj(k))), payload[off(k):off(k)+4] == be32(len(pack(obj(k)))),
+        payload[off(k)+4 : off(k+1)] == pack(obj(k)), off(n) == len(payload)
+    -- the first-order description of `concat(serialize(obj(k)) for k < n)`; serialize() is proved to produce exactly one
+    such record.  unserialize() then returns [obj(0), .., obj(n-1)], in order, for every n."""
+    SERM = "autobahn.wamp.serializer"
+    Obj = z3.IntSort()
+    BS = z3.SeqSort(z3.IntSort())
+    pack = z3.Function("c03_pack", Obj, BS)
+    unpack = z3.Function("c03_unpack", BS, Obj)
+    off = z3.Function("c03_off", z3.IntSort(), z3.IntSort())
+    objf = z3.Function("c03_obj", z3.IntSort(), Obj)
+    nobj = z3.Int("c03_n")
+    reg.native_spec("pack", lambda ex, state, o: VBytes(pack(ex.num(o))))
+    reg.native_spec("unpack", lambda ex, state, b: VInt(unpack(b.t)))
+    reg.native_spec("off", lambda ex, state, k: VInt(off(ex.num(k))))
+    reg.native_spec("obj", lambda ex, state, k: VInt(objf(ex.num(k))))
+    reg.native_spec("nobj", lambda ex, state: VInt(nobj))
+
+    def ext_dumps(ex, state, args, kwargs, sv):
+        r = pack(ex.num(args[0]))
+        for e in ():
+            pass
+        return VBytes(r)
+
+    def ext_loads(ex, state, args, kwargs, sv):
+        b = args[0].t
+        o = z3.Int(fresh_name("some_obj"))
+        # unpack may raise on anything but the image of pack
+        ex.raise_if(state, z3.Not(z3.Exists([o], pack(o) == b)) if False else z3.And(z3.Bool(fresh_name("codec_raises")),
+                                                                                 pack(unpack(b)) != b), "Exception")
+        return VInt(unpack(b))
+    for nm in ("_packb", "_cbor_dumps", "ubjson.dumpb", "umsgpack.packb", "msgpack.packb", "cbor2.dumps", "bjdata.dumpb"):
+        reg.external(nm, ext_dumps)
+    for nm in ("_unpackb", "_cbor_loads", "ubjson.loadb", "umsgpack.unpackb", "msgpack.unpackb", "cbor2.loads", "bjdata.loadb"):
+        reg.external(nm, ext_loads)
+    reg.shape("ObjSer", fields={"_batched": "bool"})
+    LAYOUT = ["nobj() >= 0", "off(0) == 0", "off(nobj()) == len(payload)",
+              "forall(k, 0, nobj(), off(k + 1) == off(k) + 4 + len(pack(obj(k))) and len(pack(obj(k))) < 2 ** 32 and "
+              "be32val(payload, off(k)) == len(pack(obj(k))) and octets(payload, off(k) + 4, len(pack(obj(k)))) == pack(obj(k)))",
+              # every record starts inside the payload (a consequence of the recurrence by induction on k; stated, so that
+              # no induction is asked of the solver)
+              "forall(k, 0, nobj(), 0 <= off(k) and off(k) < len(payload) and off(k + 1) <= len(payload))",
+              # the assumed codec law, for the objects of this batch
+              "forall(k, 0, nobj(), unpack(pack(obj(k))) == obj(k))"]
+    from pyvc import models
+    reg.native_spec("be32", lambda ex, state, v: VBytes(models.be_bytes(ex.num(v), 4)))
+    # S[a : a + n] for a slice known to lie inside S (no clamping of the bounds)
+    reg.native_spec("octets", lambda ex, state, S, a, n: VBytes(z3.Extract(S.t, ex.num(a), ex.num(n))))
+    # the number in the four octets at position p, written as struct.unpack("!L", ..) reads it
+    reg.native_spec("be32val", lambda ex, state, S, p_: VInt(z3.Sum([S.t[ex.num(p_) + j] * (256 ** (3 - j)) for j in range(4)])))
+    for cls in ("MsgPackObjectSerializer", "CBORObjectSerializer", "UBJSONObjectSerializer"):
+        reg.contract(SERM + ":%s.serialize" % cls, params={"self": "obj:ObjSer", "obj": "int"}, returns="bytes",
+                     requires=["len(pack(obj)) < 2 ** 32"],
+                     ensures=["implies(self._batched, result == be32(len(pack(obj))) + pack(obj))",
+                              "implies(not self._batched, result == pack(obj))"], **common)
+        reg.contract(SERM + ":%s.unserialize" % cls, name="C03/batch[%s]" % cls,
+                     params={"self": "obj:ObjSer", "payload": "bytes"}, returns="list:int",
+                     requires=["self._batched"] + LAYOUT,
+                     ensures=["len(result) == nobj() and forall(k, 0, nobj(), result[k] == obj(k))"],
+                     loops={"while:i < N": {"invariant": ["0 <= len(msgs) <= nobj()", "i == off(len(msgs))", "N == len(payload)", "0 <= i <= N",
+                                                          "forall(k, 0, len(msgs), msgs[k] == obj(k))"],
+                                            "vars": {"msgs": "list:int", "i": "int", "l": "int", "data": "bytes"},
+                                            "modifies": ["msgs"], "pure_calls": True}},
+                     **common)
 
 
 def extra_checks(tier, seed):
-    return []
+    """what links serialize() to the batch layout assumed by unserialize(): the record serialize() returns,
+    be32(n) ++ d with n = len(d) < 2^32, reads back n from its first four octets and d from the next n"""
+    from pyvc.spec_tools import solve
+    from pyvc import models
+    v = z3.Int("c03_v")
+    d = z3.Const("c03_d", z3.SeqSort(z3.IntSort()))
+    rest = z3.Const("c03_rest", z3.SeqSort(z3.IntSort()))
+    rec = z3.Concat(models.be_bytes(v, 4), d, rest)
+    chain = z3.And(*[(v / (256 ** i)) == (v / (256 ** (i - 1))) / 256 for i in range(1, 4)])
+    return [solve("C03/lemma/record-prefix-reads-back-the-length", [v >= 0, v < 2 ** 32, chain],
+                  z3.Sum([rec[j] * (256 ** (3 - j)) for j in range(4)]) == v, 30000),
+            solve("C03/lemma/div-chain", [v >= 0], chain, 30000),
+            solve("C03/lemma/record-body-follows-the-prefix", [v == z3.Length(d), v >= 0, v < 2 ** 32],
+                  z3.Extract(rec, 4, v) == d, 30000)]
 
 
 # ------------------------------------------------------------------------------------------ replay on the real code
@@ -197,10 +283,46 @@ print(json.dumps({"diff": diff, "wire": repr(raw), "json_round_trip_diff": jdiff
 '''
 
 
+_BATCH_HARNESS = r'''
+import json
+import txaio; txaio.use_asyncio()
+from autobahn.wamp import serializer as S
+bad = []
+OBJS = [[1, 2, "three"], {"a": [1, {"b": None}]}, [], "x" * 300, [48, 1, {}, "com.x", [1.5, True], {"k": b"bytes"}], 2 ** 53, [70000 * "y"]]
+for name in ("MsgPackObjectSerializer", "CBORObjectSerializer", "UBJSONObjectSerializer"):
+    cls = getattr(S, name, None)
+    if cls is None:
+        continue
+    for n in range(0, 5):
+        for start in range(len(OBJS)):
+            objs = [OBJS[(start + j) % len(OBJS)] for j in range(n)]
+            ser = cls(batched=True)
+            try:
+                payload = b"".join(ser.serialize(o) for o in objs)
+                out = ser.unserialize(payload) if n else []
+            except Exception as e:
+                bad.append({"cls": name, "n": n, "problem": "raised %r" % (e,)}); break
+            if out != objs:
+                bad.append({"cls": name, "n": n, "problem": "batch of %d came back as %d objects / different objects" % (n, len(out))}); break
+    ser = cls(batched=False)
+    for o in OBJS:
+        if ser.unserialize(ser.serialize(o)) != [o]:
+            bad.append({"cls": name, "n": 1, "problem": "unbatched round trip differs"}); break
+print(json.dumps({"bad": bad}))
+'''
+
+
 def replay(o):
     from pyvc import replaylib as Rp
     import re
     unit = o.get("unit") or o.get("name", "")
+    if "ObjectSerializer" in unit:
+        out = Rp.run_py(_BATCH_HARNESS, timeout=120)
+        cls = re.search(r"(\w+ObjectSerializer)", unit).group(1)
+        hits = [b for b in (out.get("bad") or []) if b.get("cls") == cls] if isinstance(out, dict) else None
+        return {"reproduced": bool(hits), "cases": (hits or [])[:3], "observed": None if hits else out,
+                "detail": "batches of 0..4 real objects through the real object serializer (serialize each, concatenate, "
+                          "unserialize, compare); finds real failing inputs only, proves nothing"}
     mt = re.search(r"roundtrip\[(\w+)\]", unit)
     if not mt:
         return {"reproduced": False, "detail": "no replay harness for this unit"}
